@@ -5,6 +5,7 @@ use num_bigint::BigUint;
 use rand::{Rng, RngCore, SeedableRng};
 use rand_chacha::ChaCha20Rng;
 use rln::circuit::iden3calc::graph::{fr_to_u256, u256_to_fr, Node, Operation, TresOperation, UnoOperation};
+use rln::circuit::Fr;
 use ruint::aliases::U256;
 use serde_json::{json, Value};
 use std::panic::AssertUnwindSafe;
@@ -306,4 +307,136 @@ pub fn run_graphs(seed: u64, count: usize, out: &mut Vec<Value>) {
         }
         out.push(ev);
     }
+}
+
+// ------------------------------------------------------------------------------------------------ C05
+/// zkexec witness --seed N --count K --cases C --out T
+/// Input assignments for the bundled circuit (limb-boundary and near-modulus values), the witness computed by the
+/// graph evaluator (three insertion orders on some cases). The reference generator (rln.wasm) is run by the driver
+/// on the same cases file.
+pub fn run_witness(seed: u64, count: usize, cases: &mut Vec<Value>, out: &mut Vec<Value>) {
+    use rln::circuit::{calculate_rln_witness, graph_from_folder};
+    let mut r = ChaCha20Rng::seed_from_u64(seed);
+    let p = modulus();
+    let one = BigUint::from(1u8);
+    let names = ["identitySecret", "userMessageLimit", "messageId", "pathElements", "identityPathIndex", "x", "externalNullifier"];
+    let mut special = |r: &mut ChaCha20Rng| -> BigUint {
+        match r.gen_range(0..10) {
+            0 => BigUint::from(0u8),
+            1 => one.clone(),
+            2 => &p - &one,
+            3 => &p - BigUint::from(r.gen_range(2u32..70000)),
+            4 => (&one << (64 * r.gen_range(1..4usize))) - &one,            // 2^64k - 1
+            5 => &one << (64 * r.gen_range(1..4usize)),                     // 2^64k
+            6 => (&one << (64 * r.gen_range(1..4usize))) + &one,
+            7 => (&p - &one) >> 1,
+            8 => &one << r.gen_range(1..254usize),
+            _ => {
+                let mut b = [0u8; 32];
+                r.fill_bytes(&mut b);
+                BigUint::from_bytes_le(&b) % &p
+            }
+        }
+    };
+    for id in 0..count {
+        let lim: u64 = [1u64, 2, 100, 255, 256, 65535, 65536][r.gen_range(0..7)];
+        let mid: u64 = match r.gen_range(0..4) { 0 => 0, 1 => lim - 1, _ => r.gen_range(0..lim) };
+        // some assignments the reference generator must reject (outside the property's quantifier; recorded for the record)
+        let bad = id % 12 == 11;
+        let mid_v = if bad && id % 24 == 11 { lim } else { mid };
+        let bits: Vec<u64> = (0..20).map(|k| if bad && id % 24 == 23 && k == 7 { 2 } else { match id % 5 { 0 => 0, 1 => 1, 2 => (k % 2) as u64, _ => r.gen_range(0..2) } }).collect();
+        let mut inputs = serde_json::Map::new();
+        let s = special(&mut r);
+        let x = special(&mut r);
+        let e = special(&mut r);
+        let path: Vec<BigUint> = (0..20).map(|_| special(&mut r)).collect();
+        inputs.insert("identitySecret".into(), json!([s.to_string()]));
+        inputs.insert("userMessageLimit".into(), json!([lim.to_string()]));
+        inputs.insert("messageId".into(), json!([mid_v.to_string()]));
+        inputs.insert("pathElements".into(), json!(path.iter().map(|v| v.to_string()).collect::<Vec<_>>()));
+        inputs.insert("identityPathIndex".into(), json!(bits.iter().map(|v| v.to_string()).collect::<Vec<_>>()));
+        inputs.insert("x".into(), json!([x.to_string()]));
+        inputs.insert("externalNullifier".into(), json!([e.to_string()]));
+        let mut order: Vec<&str> = names.to_vec();
+        if id % 3 == 1 { order.reverse(); }
+        if id % 3 == 2 { order.rotate_left(3); }
+        cases.push(json!({"id": id, "order": order, "inputs": inputs}));
+        let vals: HashMap<&str, Vec<Fr>> = HashMap::from([
+            ("identitySecret", vec![big_fr(&s)]), ("userMessageLimit", vec![Fr::from(lim)]), ("messageId", vec![Fr::from(mid_v)]),
+            ("pathElements", path.iter().map(big_fr).collect()), ("identityPathIndex", bits.iter().map(|b| Fr::from(*b)).collect()),
+            ("x", vec![big_fr(&x)]), ("externalNullifier", vec![big_fr(&e)])]);
+        let mut ev = json!({"t": "witness", "id": id});
+        let norders = if id % 8 == 0 { 3 } else { 1 };
+        let mut vecs = Vec::new();
+        for o in 0..norders {
+            let mut ord: Vec<&str> = names.to_vec();
+            match o { 1 => ord.reverse(), 2 => ord.rotate_left(4), _ => {} }
+            let it = ord.iter().map(|n| (n.to_string(), vals[n].clone()));
+            match catch(AssertUnwindSafe(|| calculate_rln_witness(it, graph_from_folder()))) {
+                Ok(Ok(w)) => vecs.push(json!(w.iter().map(|f| fr_big(f).to_string()).collect::<Vec<_>>())),
+                Ok(Err(e)) => vecs.push(json!([format!("err: {e}")])),
+                Err(m) => vecs.push(json!([format!("panic: {}", m.chars().take(60).collect::<String>())])),
+            }
+        }
+        ev["code"] = json!(vecs);
+        out.push(ev);
+    }
+}
+
+/// the bundled graph evaluated on one assignment, in the event format of run_graphs (every node value, advice),
+/// so that Trace_Graph can judge the evaluation of the REAL graph node by node
+pub fn run_bundled(seed: u64, out: &mut Vec<Value>) {
+    use rln::circuit::graph_from_folder;
+    let mut r = ChaCha20Rng::seed_from_u64(seed);
+    let p = modulus();
+    let (nodes, outputs, info) = deserialize_witnesscalc_graph(std::io::Cursor::new(graph_from_folder())).unwrap();
+    let nslots = info.values().map(|(o, l)| o + l).max().unwrap_or(1);
+    let mut buf: Vec<BigUint> = vec![BigUint::from(0u8); nslots];
+    buf[0] = BigUint::from(1u8);
+    let mut named: Vec<(String, Vec<BigUint>)> = Vec::new();
+    for (name, (off, len)) in info.iter() {
+        let vs: Vec<BigUint> = (0..*len).map(|k| match name.as_str() {
+            "userMessageLimit" => BigUint::from(65536u32),
+            "messageId" => BigUint::from(65535u32),
+            "identityPathIndex" => BigUint::from((k % 2) as u8),
+            _ => { let mut b = [0u8; 32]; r.fill_bytes(&mut b); BigUint::from_bytes_le(&b) % &p }
+        }).collect();
+        for (k, v) in vs.iter().enumerate() {
+            buf[off + k] = v.clone();
+        }
+        named.push((name.clone(), vs));
+    }
+    let ubuf: Vec<U256> = buf.iter().map(big_u256).collect();
+    let jn: Vec<Value> = nodes.iter().map(|nd| match nd {
+        Node::Input(i) => json!({"k": "in", "i": i}),
+        Node::Constant(c) => json!({"k": "const", "v": le(&u256_big(c))}),
+        Node::MontConstant(c) => json!({"k": "const", "v": le(&fr_big(c))}),
+        Node::UnoOp(_, a) => json!({"k": "uno", "op": "Neg", "a": a}),
+        Node::Op(op, a, b) => json!({"k": "op", "op": OPS.iter().find(|(_, o)| o == op).unwrap().0, "a": a, "b": b}),
+        Node::TresOp(_, a, b, c) => json!({"k": "tres", "a": a, "b": b, "c": c}),
+    }).collect();
+    let all: Vec<usize> = (0..nodes.len()).collect();
+    let vals = graph::evaluate(&nodes, &ubuf, &all);
+    let vb: Vec<BigUint> = vals.iter().map(fr_big).collect();
+    let qs: Vec<Vec<u8>> = nodes.iter().enumerate().map(|(i, nd)| match nd {
+        Node::Op(op, a, b) => le(&advice(OPS.iter().find(|(_, o)| o == op).unwrap().0, &vb[*a], &vb[*b], &vb[i])),
+        _ => vec![],
+    }).collect();
+    let o = graph::evaluate(&nodes, &ubuf, &outputs);
+    let mut bytes = Vec::new();
+    let ser = serialize_witnesscalc_graph(&mut bytes, &nodes, &outputs, &info).is_ok();
+    let rt = deserialize_witnesscalc_graph(std::io::Cursor::new(&bytes)).map(|(n2, o2, i2)| json!({"nodes": n2 == nodes, "outputs": o2 == outputs, "inputs": i2 == info}))
+        .unwrap_or(json!({"nodes": false, "outputs": false, "inputs": false}));
+    let mut calc = Vec::new();
+    for ord in 0..3 {
+        match ord { 1 => named.reverse(), 2 => named.rotate_left(2), _ => {} }
+        let it = named.iter().map(|(n, vs)| (n.clone(), vs.iter().map(big_fr).collect::<Vec<_>>()));
+        match calc_witness(it, &bytes) {
+            Ok(w) => calc.push(json!(w.iter().map(|v| le(&fr_big(v))).collect::<Vec<_>>())),
+            Err(e) => calc.push(json!(format!("err: {e}"))),
+        }
+    }
+    out.push(json!({"t": "graph", "g": "bundled", "res": "ok", "nodes": jn, "outputs": outputs, "inputs": buf.iter().map(le).collect::<Vec<_>>(),
+                    "values": vb.iter().map(le).collect::<Vec<_>>(), "q": qs, "out": o.iter().map(|v| le(&fr_big(v))).collect::<Vec<_>>(),
+                    "ser": ser, "roundtrip": rt, "calc": calc, "stored_bytes_equal": bytes == graph_from_folder()}));
 }
